@@ -6,17 +6,22 @@ import obs
 ID = "C15"
 ENV_RERUN = 40          # cases repeated from a cargo build-script environment (lib/runner.py with_build_env)
 TABLES = ["scalar"]      # leaf tables compared exhaustively through the hooks (coq/Check/Tables.v)
-REQUIRES = ["ObsCheck", "Agree", "C15Spec", "Truth"]
+REQUIRES = ["ObsCheck", "Agree", "C15Spec", "Truth", "IntLit"]
 THEOREM_REQUIRES = ["C15"]
-THEOREMS = ["C15_holds_bool"]
-PROOF_FILES = ["Proofs/GenInv.v", "Proofs/Tactics.v", "Proofs/C15Proof.v", "Properties/C15.v"]
+THEOREMS = ["C15_holds_bool", "C15_literal_tokens_roundtrip", "C15_tokens_read_back"]
+PROOF_FILES = ["Proofs/GenInv.v", "Proofs/Tactics.v", "Proofs/C15Proof.v", "Proofs/IntLitProof.v", "Properties/C15.v"]
 RULE = ("kitchen-sink shaders with 0..10 constant declarations drawn from: explicit/inferred i32,u32,f32,bool, f64 (lf), "
         "i64/u64 (li/lu), constant expressions, references to other constants, extremes (i32::MIN, u32::MAX, f32 max / "
         "min normal / subnormal, -0.0), non-scalar constants (vector, array); ground truth (type, exact value / bit "
         "pattern) computed in Python and compared with the real output; non-trivial = >= 2 scalar constants; "
         "distinct = distinct IR dumps")
-ASSUMPTIONS = ["the driver parses the literal token back with Rust's str::parse (f32/f64 round trip of Rust's shortest "
-               "repr printing); rustc's lexing of the same token is validated in the compiled batch of C01"]
+ASSUMPTIONS = ["the driver parses FLOAT literal tokens back with Rust's str::parse (f32/f64 round trip of Rust's shortest "
+               "repr printing); rustc's lexing of the same token is validated in the compiled batch (to_bits)",
+               "integer / boolean tokens: Spec/IntLit.v models rustc's reading of them (decimal digits + suffix, "
+               "overflowing_literals, unary minus); C15_tokens_read_back proves the printed tokens read back as the WGSL "
+               "value; premise consts_in_range (naga's literals are values of their own Rust type) is evaluated on every "
+               "case, and per compiled module Coq compares eval_const_tokens of the real output's tokens with the value "
+               "and type rustc reports (obs_consts_read_back)"]
 
 
 def cases(rng, tier):
@@ -51,7 +56,7 @@ def coq_obs_clause(r, real):
         if pt is None:
             return "false"
         items.append('(%s, %s, (%d)%%Z)' % (sink._cs(name), pt, int(str(c_.get("bits")).strip())))
-    return "obs_consts_ok %s [%s]" % (real, "; ".join(items))
+    return "obs_consts_ok %s [%s] && obs_consts_read_back %s [%s]" % (real, "; ".join(items), real, "; ".join(items))
 
 
 def verdict_expr(c, r, ir, real):
@@ -67,9 +72,9 @@ def verdict_expr(c, r, ir, real):
 
 def _verdict(c, r, ir, real):
     t = sink.coq_consts_truth(c["truth"])
-    return ('[wf_consts %s; agree_res agree_C15 (gen %s ""%%string None %s) %s; '
+    return ('[wf_consts %s && consts_in_range %s; agree_res agree_C15 (gen %s ""%%string None %s) %s; '
             'on_ok %s (fun o => C15_ok %s o && truth_consts_ok o %s) && OBS]'
-            % (ir, ir, coq_options(c["opts"]), real, real, ir, t))
+            % (ir, ir, ir, coq_options(c["opts"]), real, real, ir, t))
 
 
 def verdict_expr_noout(c, r, ir):
